@@ -872,7 +872,7 @@ def verdict(c):
 # with the old signature could excuse it.
 FIXED_SIGNATURES = {"invalid-pin-selected-malformed": "C20-F1", "invalid-pin-selected-empty": "C20-F2",
                     "specifier-kept-as-name": "C20-F3", "sentinel-pin-as-unpinned": "C20-F4",
-                    "bom-first-line-kept": "C20-F8"}
+                    "bom-first-line-kept": "C20-F8", "raised-InvalidVersion-installed-not-pep440": "C20-F9"}
 
 
 def classify(c, reason):
